@@ -99,13 +99,39 @@ fn main() {
         let phase: u64 = arg_val(&args, "--phase").and_then(|s| s.parse().ok()).unwrap_or(0) % every;
         let (mut n, mut ok, mut w) = (0u64, 0u64, (first / nshards) * nshards + shard);
         let progress = args.iter().any(|a| a == "--progress");
+        let wf: u64 = arg_val(&args, "--wf").and_then(|s| s.parse().ok()).unwrap_or(0);
+        let (mut wf_checked, mut panics) = (0u64, 0u64);
+        let mut wf_problems: std::collections::BTreeMap<String, u64> = Default::default();
+        let mut wf_examples: Vec<String> = Vec::new();
         install_panic_hook();
         let start = Instant::now();
         while w * every + phase <= u32::MAX as u64 && n < limit {
             let word = (w * every + phase) as u32;
             let b = if big { word.to_be_bytes() } else { word.to_le_bytes() };
-            if let Ok(Ok(_)) = fw::guard(|| t.translate_block(&b, 0x40_0000, &opts)) {
-                ok += 1;
+            match fw::guard(|| t.translate_block(&b, 0x40_0000, &opts)) {
+                Ok(Ok(btr)) => {
+                    ok += 1;
+                    // --wf N: every Nth accepted word also goes through the well-formedness and guard-determinism
+                    // checker of C05 (sorts, widths, graph shape, exactly one enabled successor)
+                    if wf > 0 && ok % wf == 0 {
+                        let mut rng = Rng::for_case(word as u64, "sweep", 0);
+                        let (problems, _) = c05::check_result_for(&mut rng, &btr, Some(args[2].as_str()));
+                        wf_checked += 1;
+                        for (kind, what) in problems {
+                            *wf_problems.entry(kind.clone()).or_insert(0u64) += 1;
+                            if wf_examples.len() < 8 {
+                                wf_examples.push(format!("0x{:08x}: {}: {}", word, kind, what.chars().take(160).collect::<String>()));
+                            }
+                        }
+                    }
+                }
+                Ok(Err(_)) => {}
+                Err(p) => {
+                    panics += 1;
+                    if wf_examples.len() < 8 {
+                        wf_examples.push(format!("0x{:08x}: panic at {}: {}", word, p.site(), p.msg.chars().take(120).collect::<String>()));
+                    }
+                }
             }
             n += 1;
             if progress && n % (1 << 20) == 0 {
@@ -113,7 +139,7 @@ fn main() {
             }
             w += nshards;
         }
-        println!("{}", serde_json::json!({"t": "sweep", "translator": args[2], "shard": shard, "words": n, "lifted": ok, "every": every, "phase": phase, "wall_s": start.elapsed().as_secs_f64()}));
+        println!("{}", serde_json::json!({"t": "sweep", "translator": args[2], "shard": shard, "words": n, "lifted": ok, "every": every, "phase": phase, "wf_checked": wf_checked, "wf_problems": wf_problems, "panics": panics, "examples": wf_examples, "wall_s": start.elapsed().as_secs_f64()}));
         return;
     }
     if mode == "lift" {
